@@ -41,6 +41,7 @@ def run(ctx: Ctx) -> None:
     numeric.rule_raise_warning(ctx, [(DMF, "fidelity"), (DMF, "trace_distance"), (DMF, "partial_trace"),
                                      (METRICS, "Infidelity.evaluate"), (METRICS, "TraceDistance.evaluate")])
     rule_rep_dispatch(ctx)
+    rule_metric_value(ctx)
     rule_distance_whole_state(ctx)
     numeric.rule_hermitian_args(ctx, DMF, ["fidelity", "trace_distance"])
     numeric.rule_spectral_sqrt(ctx)
@@ -122,6 +123,75 @@ def rule_rep_dispatch(ctx: Ctx) -> None:
                              f"`{short(c)}` does not pair the target's data with the evaluated state's data", func=q)
 
 
+def rule_metric_value(ctx: Ctx) -> None:
+    """metric.value: Infidelity.evaluate returns (and logs) 1 - F where F is the name every backend fidelity call is bound to;
+    TraceDistance.evaluate returns (and logs) the name bound to the backend distance.  Inside the branch `self.target.rep_type == L`
+    the caller's state is used as it is only under `state.rep_type == L`, and a copy is converted to that same L otherwise."""
+    repo = ctx.repo
+    m = repo.module(METRICS)
+    for q, back, comp in (("Infidelity.evaluate", "fidelity", True), ("TraceDistance.evaluate", "trace_distance", False)):
+        fn = repo.anchor(METRICS, q)
+        ctx.touch(m, fn)
+        sp = func_params(fn)[1]
+        names = set()
+        for n in ast.walk(fn):
+            if isinstance(n, ast.Assign) and len(n.targets) == 1 and isinstance(n.targets[0], ast.Name) and \
+                    any(call_attr(c) == back and (call_name(c) or "").split(".")[0] in ("dmf", "sfm") for c in calls_in(n.value)):
+                names.add(n.targets[0].id)
+        if len(names) != 1:
+            raise AnalysisError(f"{q}: the backend {back} calls are not bound to one name ({sorted(names)})")
+        v = names.pop()
+        want = [f"1 - {v}", f"1.0 - {v}"] if comp else [v]
+        outs = [r.value for r in ast.walk(fn) if isinstance(r, ast.Return) and r.value is not None]
+        outs += [c.args[0] for c in calls_in(fn) if call_attr(c) == "append" and norm(c.func.value) == "self.log" and c.args]
+        if not outs:
+            raise AnalysisError(f"{q}: no return value")
+        bad = [o for o in outs if norm(o) not in want]
+        if bad:
+            ctx.fail("metric.value", m, bad[0], f"{q} returns / logs `{short(bad[0])}`; the metric is `{want[0]}` with `{v}` the backend {back}", func=q,
+                     construct=f"{q}: value {norm(bad[0])[:40]}")
+        else:
+            ctx.ok("metric.value", m, outs[0], what=f"{q}: {want[0]} returned and logged ({len(outs)} sites)")
+        # representation literals agree inside each target branch
+        def lit_of(test, subj):
+            if isinstance(test, ast.Compare) and len(test.ops) == 1 and isinstance(test.ops[0], ast.Eq):
+                l_, r_ = test.left, test.comparators[0]
+                if isinstance(l_, ast.Constant):
+                    l_, r_ = r_, l_
+                if norm(l_) == subj and isinstance(r_, ast.Constant):
+                    return r_.value
+            return None
+        cur = [i for i in fn.body if isinstance(i, ast.If) and lit_of(i.test, "self.target.rep_type") is not None]
+        if len(cur) != 1:
+            raise AnalysisError(f"{q}: the dispatch on self.target.rep_type was not found")
+        node = cur[0]
+        nbr = 0
+        while isinstance(node, ast.If):
+            L = lit_of(node.test, "self.target.rep_type")
+            if L is None:
+                raise AnalysisError(f"{q}: test `{short(node.test)}` of the representation dispatch not recognised")
+            nbr += 1
+            inner = [i for i in node.body if isinstance(i, ast.If) and f"{sp}.rep_type" in norm(i.test)]
+            if len(inner) != 1:
+                raise AnalysisError(f"{q}: branch {L!r}: the test of the state's representation was not found")
+            L2 = lit_of(inner[0].test, f"{sp}.rep_type")
+            if L2 is None:
+                raise AnalysisError(f"{q}: branch {L!r}: test `{short(inner[0].test)}` not recognised")
+            conv = [c for st in inner[0].orelse for c in calls_in(st) if call_attr(c) == "convert_representation"]
+            direct_conv = [c for st in inner[0].body for c in calls_in(st) if call_attr(c) == "convert_representation"]
+            why = None
+            if L2 != L:
+                why = f"the state is used unconverted when its representation is {L2!r}, in the branch for a {L!r} target"
+            elif direct_conv or len(conv) != 1 or not (conv[0].args and isinstance(conv[0].args[0], ast.Constant) and conv[0].args[0].value == L):
+                why = f"a state held in another representation must be converted (as a copy) to {L!r}: found `{short(conv[0]) if conv else 'no conversion'}`"
+            if why:
+                ctx.fail("metric.value", m, inner[0], f"{q}: {why}", func=q, construct=f"{q}: branch {L}: {why[:50]}")
+            else:
+                ctx.ok("metric.value", m, inner[0], what=f"{q}: branch {L!r}: direct use iff state is {L!r}, else copy converted to {L!r}")
+            node = node.orelse[0] if len(node.orelse) == 1 and isinstance(node.orelse[0], ast.If) else None
+    ctx.floor("metric.value", 5)
+
+
 def rule_distance_whole_state(ctx: Ctx) -> None:
     """dist.whole-state: the trace distance is not linear in a mixture — T(t, sum_i p_i rho_i) <= sum_i p_i T(t, rho_i), with equality only
     in special cases — so TraceDistance.evaluate has to hand dmf.trace_distance the density matrix of the *whole* state.  A weighted sum
@@ -153,6 +223,9 @@ def rule_distance_whole_state(ctx: Ctx) -> None:
 
 
 KNOCKOUTS = [
+    Knockout("infidelity-returns-fidelity", "graphiq/metrics.py", sub_once("            self.log.append(1 - fid)\n\n        return 1 - fid", "            self.log.append(1 - fid)\n\n        return fid"), "metric.value", "returns / logs"),
+    Knockout("infidelity-converts-to-wrong-rep", "graphiq/metrics.py", sub_once('                tmp_state.convert_representation("s")\n                rep_data = tmp_state.rep_data', '                tmp_state.convert_representation("dm")\n                rep_data = tmp_state.rep_data'), "metric.value", "converted"),
+    Knockout("trace-distance-direct-on-stabilizer", "graphiq/metrics.py", sub_once('            if state.rep_type == "dm":\n                trace_distance', '            if state.rep_type == "s":\n                trace_distance'), "metric.value", "unconverted"),
     Knockout("uhlmann-trace-not-squared", DMF, sub_once("        f = np.real(np.trace(rho_final)) ** 2\n", "        f = np.real(np.trace(rho_final))\n"), "dist.shape", "Uhlmann"),
     Knockout("trace-distance-branch-by-branch", "graphiq/metrics.py", sub_once("            else:\n                tmp_state = state.copy()\n                tmp_state.convert_representation(\"dm\")\n                trace_distance = dmf.trace_distance(", "            elif hasattr(state.rep_data, \"mixture\"):\n                trace_distance = sum(p_i * dmf.trace_distance(self.target.rep_data.data, t_i) for p_i, t_i in state.rep_data.mixture)\n            else:\n                tmp_state = state.copy()\n                tmp_state.convert_representation(\"dm\")\n                trace_distance = dmf.trace_distance("), "dist.whole-state", "per-branch"),
     Knockout("branch-overlap-not-squared", "graphiq/metrics.py", sub_once("[p_i * sfm.fidelity(tableau, t_i) for p_i, t_i in rep_data.mixture]", "[p_i * sfm.inner_product(tableau, t_i) for p_i, t_i in rep_data.mixture]"), "weight.fidelity", "not squared"),
